@@ -3268,6 +3268,20 @@ nested_parse_template_instantiation(CPPTemplateScope *scope) {
 #endif
   assert(scope != nullptr);
 
+  // Every level of A<B<C<...> > > runs the parser recursively, with a stack
+  // frame of tens of kilobytes.  Give up before the stack does.
+  static int nesting_depth = 0;
+  if (nesting_depth >= 32) {
+    // (Errors are not reported while we are in the nested state.)
+    State nested_state = _state;
+    _state = S_normal;
+    error("template arguments are nested too deeply");
+    _state = nested_state;
+    nested_skip_template_instantiation(scope);
+    return new CPPTemplateParameterList;
+  }
+  ++nesting_depth;
+
   State old_state = _state;
   int old_nesting = _paren_nesting;
   bool old_parsing_params = _parsing_template_params;
@@ -3361,6 +3375,7 @@ nested_parse_template_instantiation(CPPTemplateScope *scope) {
   indent(cerr, get_file_depth() * 2)
     << "Ending nested parse\n";
 #endif
+  --nesting_depth;
   return actual_params;
 }
 
